@@ -13,7 +13,7 @@ def nested(t):
 
 
 def applies(pid, t):
-    if pid in ('C14', 'C05') and nested(t):
+    if pid in ('C14', 'C05', 'C13') and nested(t):
         return True
     if pid == 'C17':
         import shapes
